@@ -95,4 +95,29 @@ def Ctx.verify (c : Ctx) (nonces : List Nat) : Except Err Unit :=
 /-- a context after a whole history of calls -/
 def Ctx.run (c : Ctx) (ops : List CtxOp) : Ctx := ops.foldl Ctx.step c
 
+
+/-! ### verifications one after the other on one thread
+
+The code has no per-thread state behind `verify` (`siphash_block` builds its block of hashes in a
+local vector, every context owns its keys): what a thread verified before does not enter.  The
+model says so by construction; `Props/C05.lean verify_thread_history_independent` states it, the
+run `pow order` checks it on the real code. -/
+
+/-- one verification request: a fresh context of `variant` for `edgeBits`, seeded with
+(`hdr`, `nonce`), asked to verify `proof` -/
+structure VReq where
+  variant : Variant
+  edgeBits : Nat
+  proofsize : Nat
+  hdr : Bytes
+  nonce : Option Nat
+  proof : List Nat
+
+/-- the verdict on one request -/
+def verifyReq (r : VReq) : Except Err Unit :=
+  ((Ctx.new r.variant r.edgeBits r.proofsize r.proofsize).step (.seed r.hdr r.nonce false)).verify r.proof
+
+/-- the verdicts of a sequence of requests handled one after the other by one thread -/
+def verifySeq (rs : List VReq) : List (Except Err Unit) := rs.map verifyReq
+
 end GV.Pow
